@@ -577,6 +577,63 @@ class GateFromLog(Case):
         H.check('log-handed-unmodified-to-the-rebuild', all(t[2] is log for t in tr if t[0] == 'gen'))
 
 
+class GateRebuildFromLog(Case):
+    """rebuild_asm_block_from_log (C11, C10): the block rebuilt from the log is returned only after the re-check said equal; a block
+    that cannot be analysed is kept (a copy) exactly when the log names none of its sub-blocks, otherwise the failure is raised"""
+    prop = 'C11'
+    tier = 'P'
+    name = "optimize_asm_from_log(rebuild one block)"
+    functions = (gasol_asm.rebuild_asm_block_from_log,)
+
+    def make_stubs(self):
+        def st_gen(it, block, json_log, params):
+            it.trace.append(('gen', block))
+            if it.cfg['gen_raises']:
+                raise Boom("analysis impossible")
+            return Marker('sfs_all'), Marker('sfs_opt'), Marker('sbl'), Marker('seqs'), set()
+
+        def st_from_log(it, block, sfs_all, sbl, seqs):
+            it.trace.append(('from_log', block))
+            return it.cfg['opt']
+
+        def st_cmp(it, old_block, new_block, params):
+            it.trace.append(('compare', old_block, new_block))
+            return it.cfg['eq'], "reason"
+        return {'gasol_asm.generate_sfs_dicts_from_log': st_gen, 'gasol_asm.optimize_asm_block_from_log': st_from_log,
+                'gasol_asm.compare_asm_block_asm_format': st_cmp}
+
+    def run(self, H):
+        blk = Blk('C_block_1')
+        opt = Blk('rebuilt')
+        entry = H.choice('log_entry', ['none', 'own-sub-block', 'other-block-with-longer-name'])
+        log = {"D_block_0_0": ["ADD_0"]}
+        if entry == 'own-sub-block':
+            log["C_block_1_0"] = ["ADD_0"]
+        elif entry == 'other-block-with-longer-name':
+            log["C_block_10_0"] = ["ADD_0"]
+        H.it.cfg = dict(gen_raises=H.choice('analysis', [False, True]), eq=H.bool('eq'), opt=opt)
+        out = H.call(gasol_asm.rebuild_asm_block_from_log, blk, log, types.SimpleNamespace())
+        tr = H.it.trace
+        if H.it.cfg['gen_raises']:
+            if entry == 'own-sub-block':
+                H.check('analysis-failure-of-a-logged-block=>raised', (not out.ok) and isinstance(out.exc, Boom), info=repr(out))
+            else:
+                H.check('analysis-failure-of-an-unlogged-block=>kept', out.ok and isinstance(out.value, Blk) and out.value.origin is blk, info=repr(out))
+                H.check('nothing-rebuilt-for-it', not [t for t in tr if t[0] in ('from_log', 'compare')])
+            return
+        eq = _b(H.it.cfg['eq'])
+        if H.symbolic:
+            good = H.path.branch(sym.lift(eq)) if isinstance(eq, Sym) else bool(eq)
+        else:
+            good = bool(eq)
+        if good:
+            H.check('verified=>the-rebuilt-block-is-returned', out.ok and out.value is opt, info=repr(out))
+        else:
+            H.check('not-verified=>ValueError', (not out.ok) and isinstance(out.exc, ValueError), info=repr(out))
+        cmp_ = [t for t in tr if t[0] == 'compare']
+        H.check('re-check-called-on-(block, rebuilt)', len(cmp_) == 1 and cmp_[0][1] is blk and cmp_[0][2] is opt)
+
+
 def cases(tier='quick'):
     return [GateOptimizeBlock(), GateCompare(), GateContract(), GateContractFaults(), GateIsolated(), GateIsolatedFaults(),
-            GateFromLog()], {}
+            GateFromLog(), GateRebuildFromLog()], {}
